@@ -44,8 +44,9 @@ extern void *mpt_array_append(MPT_STRUCT(array) *arr, size_t len, const void *ba
 		errno = EINVAL;
 		return 0;
 	}
-	/* need more space */
-	else if (len > (b->_size - (used = b->_used))) {
+	/* need more space or private data */
+	else if (len > (b->_size - (used = b->_used))
+	 || (len && (b->_vptr->get_flags(b) & (MPT_ENUM(BufferShared) | MPT_ENUM(BufferImmutable))))) {
 		if (len > (SIZE_MAX - used)) {
 			errno = EINVAL;
 			return 0;
